@@ -45,6 +45,19 @@ def build(tier, ctx):
     # long sequences between loop start, loop end and exits
     defs += [("FX", d) for d in fragment.stretched_family(
         4 if tier == "quick" else 5, 10) if fragment.has_loop(d)]
+    # waves 13-14: the loop definitions of F_5 (F_6) under event names that
+    # contain words the loop code uses itself, digits / underscores as in the
+    # generated loop names, and names equal up to case
+    odd = ({"A": "LOOP", "B": "LOOPBACK", "C": "EVENT_LOOP_1", "D": "START",
+            "E": "END", "F": "DUMMY", "G": "BREAK"},
+           {"A": "STEP_2", "B": "STEP_10", "C": "step_2", "D": "LOOP_x",
+            "E": "X_LOOP_7", "F": "2", "G": "_"},
+           {"A": "E", "B": "D", "C": "C", "D": "B", "E": "A", "F": "a",
+            "G": "b"})
+    for d in fragment.F(5 if tier == "quick" else 6):
+        if fragment.has_loop(d):
+            for mp in odd:
+                defs.append(("F", dsl.map_names(d, mp)))
     tasks = []
     for i in range(0, len(defs), CHUNK):
         tasks.append({"defs": [(nm, dsl.to_list(d))
